@@ -113,6 +113,87 @@ Proof.
            gen_P1_closed gen_P1_env gen_no_shared_module).
 Qed.
 
+(* ---------------------------------------------------------------- configurations composed from a sequence of options *)
+
+(* A configuration is the composition of an arbitrary sequence of options (WithoutDefaultGlobals, WithGlobal(s),
+   WithoutGlobal, WithoutGlobals(names...), WithGlobalOverride) in any order.  Deny options ACCUMULATE: for every option
+   list, the deny set of the composed Config is exactly the union of the names given to all its WithoutGlobal and
+   WithoutGlobals options - none is forgotten because of what comes later, none appears that no option gave. *)
+Theorem C11_options_accumulate : forall opts x, In x (c_deny (config_of opts)) <-> denied_by opts x.
+Proof. exact config_of_denies. Qed.
+
+(* For EVERY defaults world and EVERY option list: a global name denied by some option of the list and not
+   overridden by a WithGlobalOverride of the list is absent from the composed environment - whatever else the list
+   denies, adds or overrides, in whatever order (no identifier, import statement or from-import can name it). *)
+Theorem C11_composed_deny_wins : forall d opts x,
+  denied_by opts x -> has_dot x = false -> ~ overridden_by opts x ->
+  env_get (w_env (apply_config d (config_of opts))) x = None.
+Proof. exact composed_deny_wins. Qed.
+
+(* ... and the same for any configuration however it was obtained (any deny list). *)
+Theorem C11_denied_global_absent : forall d c x,
+  In x (c_deny c) -> has_dot x = false -> (forall y v, In (y, v) (c_over c) -> y <> x) ->
+  env_get (w_env (apply_config d c)) x = None.
+Proof. exact denied_global_absent. Qed.
+
+(* the shape of an embedding application's base deny list followed by a per-tenant WithoutGlobals *)
+Definition layered_opts : list opt :=
+  [OptWithout "os"; OptWithout "exec.command"; OptWithoutMany ["json"; "cat"]].
+Example C11_layered_denies_all :
+  c_deny (config_of layered_opts) = ["os"; "exec.command"; "json"; "cat"] /\
+  c_deny (config_of (rev layered_opts)) = ["json"; "cat"; "exec.command"; "os"] /\
+  forallb (fun x => match lookup_name (apply_config G (config_of layered_opts)) x with None => true | Some _ => false end)
+          ["os"; "os.getenv"; "exec.command"; "json"; "cat"] = true /\
+  (denied_by layered_opts "os" /\ has_dot "os" = false /\ ~ overridden_by layered_opts "os").
+Proof.
+  split; [vm_compute; reflexivity|]. split; [vm_compute; reflexivity|]. split; [vm_cast_no_check (eq_refl true)|].
+  split; [exists (OptWithout "os"); split; [left; reflexivity|reflexivity]|]. split; [reflexivity|].
+  intros [v H]. repeat (destruct H as [H|H]; [discriminate|]). exact H.
+Qed.
+
+(* ---------------------------------------------------------------- modules the host assembles from existing builtins *)
+
+(* object.NewBuiltinsModule(n, members) re-parents every builtin it is given: for every well-formed world, every
+   member b that is a builtin (has a computed __module__ attribute, whatever it pointed to) answers __module__ with the
+   NEW module afterwards ... *)
+Theorem C11_assembled_backref : forall w n members a b old,
+  wf_world w = true -> In (a, b) members -> In (E b "__module__" false old) (w_heap w) ->
+  get_attr (w_heap (assemble w n members)) b "__module__" = Some n.
+Proof. exact assemble_backref. Qed.
+
+(* ... and every other attribute edge is kept as it was. *)
+Theorem C11_assembled_keeps : forall w n members e,
+  In e (w_heap w) -> (e_lbl e <> "__module__" \/ e_mem e = true \/ ~ In (e_src e) (map snd members)) ->
+  In e (w_heap (assemble w n members)).
+Proof. exact assemble_keeps. Qed.
+
+(* Finite domain (every module among the default globals of the generated graph) x two selections of members (all
+   of them; those with a name of even length): a restricted module assembled from the selected members of the full
+   module x, installed by WithGlobalOverride(x, n) or as a new global beside WithoutGlobal(x), gives a script no access
+   path to the full module object - not through the __module__ back-reference of any member either. *)
+Definition fresh_mod : node := Pos.succ Gen.max_node.
+Definition keep_all (a : string) : bool := true.
+Definition keep_even (a : string) : bool := Nat.even (String.length a).
+Lemma gen_assembled_all : forallb (check_assemble G fresh_mod keep_all) (map fst Gen.env1) = true.
+Proof. vm_cast_no_check (eq_refl true). Qed.
+Lemma gen_assembled_even : forallb (check_assemble G fresh_mod keep_even) (map fst Gen.env1) = true.
+Proof. vm_cast_no_check (eq_refl true). Qed.
+Theorem C11_assembled_module_confined : forall keep x m,
+  keep = keep_all \/ keep = keep_even ->
+  In (x, m) Gen.env1 -> env_get Gen.env1 x = Some m -> is_module Gen.modules m = true ->
+  ~ Access (apply_config (restricted G fresh_mod m keep) (override1 x fresh_mod)) m /\
+  ~ Access (apply_config (restricted G fresh_mod m keep) (beside x fresh_mod)) m.
+Proof.
+  intros keep x m [->| ->].
+  - exact (assembled_from_check G fresh_mod keep_all gen_assembled_all x m).
+  - exact (assembled_from_check G fresh_mod keep_even gen_assembled_even x m).
+Qed.
+Example C11_assembled_hyp_satisfiable :
+  existsb (fun p => String.eqb (fst p) "os" && is_module Gen.modules (snd p)) Gen.env1 = true /\
+  Nat.leb 3 (List.length (filter (fun p => keep_even (fst p))
+               (stored_members Gen.heap (match env_get Gen.env1 "os" with Some m => m | None => 1%positive end)))) = true.
+Proof. split; vm_cast_no_check (eq_refl true). Qed.
+
 (* ---------------------------------------------------------------- nested names of any depth *)
 
 (* For every well-formed world (host-defined module trees of any shape), every global module x, every chain of
